@@ -3,5 +3,5 @@
 cd /verif
 mod=$1; pkg=$2; fns=$3
 if [ "$mod" = "." ]; then out=$(./bin/govc verify -pkg $pkg -fn "$fns" 2>&1); else out=$(./bin/govc verify -mod /repo/$mod -pkg $pkg -fn "$fns" 2>&1); fi
-echo "$out" | grep -E "load error|^panic|FAIL|ERROR|outside subset" -A1 | cut -c1-${W:-260}
+echo "$out" | grep -E "load error|^panic|FAIL|ERROR|outside subset" -A1 | cut -c1-${W:-260} | head -${N:-24}
 echo "ok=$(echo "$out" | grep -c '^ok ') fail=$(echo "$out" | grep -c '^FAIL') err=$(echo "$out" | grep -cE 'load error|^panic|^ERROR')"
